@@ -379,6 +379,10 @@ func (e *Engine) libIntrinsic(fn *ssa.Function, key string, args []Value, g *Ter
 		if r, ng, ok := e.bytesBuffer(fn, key, args, g, pos); ok {
 			return r, ng, true
 		}
+	case "strings":
+		if r, ng, ok := e.stringsBuilder(fn, key, args, g, pos); ok {
+			return r, ng, true
+		}
 	case "runtime":
 		switch fn.Name() {
 		case "Gosched", "KeepAlive", "SetFinalizer":
@@ -867,4 +871,52 @@ func (e *Engine) globalVal(pkg, name string) Value {
 		abort("global %s.%s not found", pkg, name)
 	}
 	return e.globalObj(gl).val
+}
+
+
+// ---------- strings.Builder (modelled on its buf field) ----------
+
+func (e *Engine) stringsBuilder(fn *ssa.Function, key string, args []Value, g *Term, pos token.Pos) (Value, *Term, bool) {
+	if !strings.HasPrefix(key, "(*strings.Builder).") {
+		return nil, nil, false
+	}
+	fr := &frame{e: e}
+	byteT := types.Typ[types.Byte]
+	p := args[0].(PtrV)
+	bufPtr := extendPath(p, PathElem{field: 1})
+	getBuf := func() SliceV { return fr.load(bufPtr, g, pos).(SliceV) }
+	switch fn.Name() {
+	case "Grow", "copyCheck":
+		return nil, g, true
+	case "WriteByte":
+		c := args[1].(*Term)
+		nb := fr.appendCore(getBuf(), byteT, BV(IntW, 1), 1, func(int) Value { return c }, g, pos)
+		fr.store(bufPtr, nb, g, pos)
+		return nilIface(), g, true
+	case "WriteString", "Write":
+		nb := fr.appendAny(getBuf(), byteT, args[1], g, pos)
+		fr.store(bufPtr, nb, g, pos)
+		var n *Term
+		if s, ok := args[1].(SliceV); ok {
+			n = sliceLen(s)
+		} else {
+			n = args[1].(StringV).n
+		}
+		return TupleV{n, nilIface()}, g, true
+	case "WriteRune":
+		r := args[1].(*Term)
+		e.addOblig("limit", "strings.Builder.WriteRune with rune >= 0x80 not modelled", e.posStr(pos, nil), And(g, Not(Cmp("bvult", r, BV(32, 0x80)))))
+		c := Extract(r, 7, 0)
+		nb := fr.appendCore(getBuf(), byteT, BV(IntW, 1), 1, func(int) Value { return c }, g, pos)
+		fr.store(bufPtr, nb, g, pos)
+		return TupleV{BV(IntW, 1), nilIface()}, g, true
+	case "String":
+		return fr.bytesToString(getBuf(), g, pos), g, true
+	case "Len":
+		return sliceLen(getBuf()), g, true
+	case "Reset":
+		fr.store(bufPtr, nilSlice(), g, pos)
+		return nil, g, true
+	}
+	return nil, nil, false
 }
